@@ -820,8 +820,12 @@ struct elements_iterator_t : boost::multi::random_accessable<elements_iterator_t
 		return *this;
 	}
 	BOOST_MULTI_HD constexpr auto operator-=(difference_type n) -> elements_iterator_t& {
-		// auto const nn = std::apply(xs_, ns_);
-		// ns_ = xs_.from_linear(nn - n);
+		if(l_.num_elements() == 0) {  // nothing to index in an empty range (from_linear would divide by zero)
+			n_ -= n;
+			return *this;
+		}
+		auto const nn = std::apply(xs_, ns_);
+		ns_ = xs_.from_linear(nn - n);  // the position must follow the count, as in operator+=
 		n_ -= n;
 		return *this;
 	}
